@@ -118,6 +118,28 @@ def known_matcher(pid):
                 toks = cmd.split(" ")[2:]
                 if any(t[0] in "bc" and not wellformed_utf8_tok(t) for t in toks):
                     return e["line"]
+            if e["id"] == "F2-usp-illformed-utf8" and cmd.startswith(("usp_selfname ", "sp_selfname ")):
+                # the name argument is a prefix VIEW of a stored name: a cut inside a UTF-8 character is an ill-formed char
+                # argument.  Recognised from the outputs: wherever the two lines differ, the implementation kept raw bytes
+                # that are not well-formed UTF-8 and the model has them replaced by U+FFFD (maximal-subpart policy)
+                x2 = re.sub(r" str=\S+", "", x); y2 = re.sub(r" str=\S+", "", y)      # the serialization is derived from the list
+                fx = re.findall(r"[0-9A-F]{2,}", x2); fy = re.findall(r"[0-9A-F]{2,}", y2)
+                if len(fx) == len(fy) and fx != fy:
+                    ok = True
+                    for hx_, hy_ in zip(fx, fy):
+                        if hx_ == hy_: continue
+                        try:
+                            bx = bytes.fromhex(hx_)
+                            rep = bx.decode("utf-8", "replace").encode("utf-8").hex().upper()
+                            try:
+                                bx.decode("utf-8"); wellformed = True
+                            except UnicodeDecodeError:
+                                wellformed = False
+                            if wellformed or rep != hy_: ok = False
+                        except ValueError:
+                            ok = False
+                    if ok:
+                        return e["line"]
             if e["id"] == "F11-parse-input-aliases-object" and getattr(case, "tag", "") == "aliasparse" and any(l.startswith("parse_selfinput ") for l in case.lines[:k + 1]):
                 return e["line"]
             if e["id"] == "F7-setter-argument-aliases-object" and getattr(case, "tag", "") == "alias":
